@@ -58,6 +58,7 @@ type page struct {
 	open            bool  // open-ended: claims a future for ever, the future is an empty open page
 	failLink        bool  // obtaining the linked page fails
 	iterFails       bool  // GetItemIterator fails (the other way a page can be unobtainable)
+	reuse           bool  // the source re-uses its page object: the linked page is loaded INTO this object, which is handed back
 	fetchCount      *int
 	haltWhenFetched *func() // scenario: the paginator is halted while this page is being fetched (nil = never)
 }
@@ -88,6 +89,12 @@ func (p *page) nextPage() (*page, error) {
 	if p.failLink {
 		return nil, errScripted
 	}
+	if p.reuse {
+		t := *p.next
+		t.reuse = true
+		*p = t
+		return p, nil
+	}
 	return p.next.delivered(), nil
 }
 func (p *page) futurePage() (*page, error) {
@@ -99,6 +106,12 @@ func (p *page) futurePage() (*page, error) {
 	}
 	if p.failLink {
 		return nil, errScripted
+	}
+	if p.reuse {
+		t := *p.future
+		t.reuse = true
+		*p = t
+		return p, nil
 	}
 	return p.future.delivered(), nil
 }
@@ -159,6 +172,12 @@ func build(s *Scenario, failMode string) (first *page, haltHook *func(), firstEr
 		}
 	}
 	pages[len(pages)-1].open = s.Open
+	if s.HaltFetch == 0 && s.FailAt == 0 && !s.Open && (len(s.Pages)+len(s.Calls))%3 == 0 {
+		// a source that keeps ONE page object and reloads it with the next batch (a third of the plain scenarios)
+		for _, p := range pages {
+			p.reuse = true
+		}
+	}
 	if s.HaltFetch >= 2 && s.HaltFetch <= len(pages) {
 		haltHook = new(func())
 		pages[s.HaltFetch-1].haltWhenFetched = haltHook
